@@ -326,7 +326,7 @@ http_chunk_decode_append_data (request_st * const r, const char *mem, off_t len)
                 }
                 s = (unsigned char *)h->ptr;/*(note: read h->ptr after append)*/
                 /*(non-blank h contains at least one non-'\n' char, plus '\n')*/
-                if (s[buffer_clen(h)-2] != '\r')
+                if (((const char *)memchr(s, '\n', buffer_clen(h)))[-1] != '\r')
                     p = NULL; /* flag missing '\r'; p checked again below */
             }
 
